@@ -434,6 +434,40 @@ Proof.
   - unfold I. cbn [fst snd]. right. split; [split; [split; reflexivity|unfold zat; cbn [lpos]; lia]|unfold zat; cbn [lpos]; lia].
 Qed.
 
+Lemma scan_reach_gen {R} (rcur : R -> lx) c d l (body : lx -> res (lp lx R)) p q fuel a h rh : cfg_ok c -> tb c <> [] -> html_inv d l -> is_region c d p q ->
+  lpos (lz l) <= a <= p ->
+  (forall s x, body s = Ok x -> match x with Cont s' => samele s s' | Brk r => samele s (rcur r) end) ->
+  (forall i, a <= i < p -> prefixb (tb c) (skipz i d) = false -> body (zat l i) = Ok (Cont (zat l (i + 1)))) ->
+  (forall i, a <= i < p -> prefixb (tb c) (skipz i d) = false) ->
+  loop fuel (with_tmpl_lx c body) (zat l a, h) = Ok rh ->
+  snd rh = true /\ q <= lpos (rcur (fst rh)).
+Proof.
+  intros Hc Htb Hi Hreg Ha Hfwd Hstep Hnp H. unfold with_tmpl_lx in H.
+  destruct (tmpl_here c d l p q Hc Hi ltac:(lia) Hreg) as (Hatp & Hskp & Hq).
+  set (I := fun sh : lx * bool => (snd sh = true /\ samele (lz l) (fst sh) /\ q <= lpos (fst sh)) \/
+                                  (samele (lz l) (fst sh) /\ a <= lpos (fst sh) <= p)).
+  refine (with_tmpl_inv2 c (fun z : lx => z) (fun _ z' => z') I (fun r : R * bool => snd r = true /\ q <= lpos (rcur (fst r)))
+            body _ _ fuel (zat l a, h) rh _ H).
+  - intros s h1 z' HI Hat Hk. unfold I in *. cbn [fst snd] in *. left. split; [reflexivity|].
+    destruct HI as [(_ & Hs & Hqs)|(Hs & Hr)].
+    + pose proof (tmpl_skip_run _ _ _ Hk) as Hkr. split; [eapply samele_trans; eauto|destruct Hkr; lia].
+    + destruct Hs as [Hsm Hle]. rewrite (same_zat l s Hsm) in Hat, Hk.
+      destruct (Z.eq_dec (lpos s) p) as [E|E].
+      * rewrite E, Hskp in Hk. injection Hk as <-. split; [split; [split; reflexivity|unfold zat; cbn [lpos]; lia]|unfold zat; cbn [lpos]; lia].
+      * exfalso. rewrite (tmpl_at_zat c d l (lpos s) Hc Htb Hi ltac:(lia)) in Hat. rewrite (Hnp (lpos s) ltac:(lia)) in Hat. discriminate.
+  - intros s h1 x HI Hat Hx. unfold I in *. cbn [fst snd] in *.
+    destruct HI as [(Hh & Hs & Hqs)|(Hs & Hr)].
+    + specialize (Hfwd s x Hx). destruct x as [s'|r]; cbn [fst snd].
+      * left. split; [exact Hh|]. split; [eapply samele_trans; eauto|destruct Hfwd; lia].
+      * split; [exact Hh|]. destruct Hfwd as [_ Hf]. lia.
+    + destruct Hs as [Hsm Hle]. rewrite (same_zat l s Hsm) in Hat, Hx.
+      destruct (Z.eq_dec (lpos s) p) as [E|E].
+      * exfalso. rewrite E in Hat. unfold tmpl_at in Hat. rewrite (has_delims_true c Htb), Hatp in Hat. discriminate.
+      * rewrite (Hstep (lpos s) ltac:(lia) (Hnp (lpos s) ltac:(lia))) in Hx. injection Hx as <-. cbn [fst snd]. right.
+        split; [split; [split; reflexivity|unfold zat; cbn [lpos]; lia]|unfold zat; cbn [lpos]; lia].
+  - unfold I. cbn [fst snd]. right. split; [split; [split; reflexivity|unfold zat; cbn [lpos]; lia]|unfold zat; cbn [lpos]; lia].
+Qed.
+
 (* comments: "<!--" at the cursor, then bytes [a+4,p) at which neither a delimiter nor "-->" / "--!>" starts, then a region *)
 Definition comment_plain (c : cfg) (d : list Z) (i : Z) : Prop :=
   0 <= i < len d /\ prefixb (tb c) (skipz i d) = false /\
@@ -800,14 +834,361 @@ Proof.
   apply (finish_token c d l _ _ _ q Hc Hi Hn); [discriminate|discriminate|]. cbn [lz]. rewrite (shiftv_pos _ _ Es). cbn [mv lpos]. lia.
 Qed.
 
+(* bogus comments "</" + non-letter: bytes [a+2,p) that are gt_plain, then a region *)
+Lemma html_template_bogus_slash_proof : forall c d l p q, cfg_ok c -> tb c <> [] -> html_inv d l -> intag l = false -> rawtag l = 0 ->
+  let a := lpos (lz l) in
+  prefixb (tb c) (skipz a d) = false -> getz d a = 60 -> getz d (a + 1) = 47 -> a + 2 < len d ->
+  is_letter (getz d (a + 2)) = false -> getz d (a + 2) <> 62 -> a + 2 <= p ->
+  (forall i, a + 2 <= i < p -> gt_plain c d i) -> is_region c d p q ->
+  exists v l', next c l = Ok (CommentT, Some v, l') /\ lhas l' = true /\ so v = a /\ q <= so v + sn v.
+Proof.
+  intros c d l p q Hc Htb Hi Hit Hraw a Hnp G0 G1 Ha2 G2 G3 Hap Hplain Hreg.
+  pose proof Hi as (Hl & Hlen & _). pose proof (lwf_clean l Hl Hit) as Hcl. pose proof (inv_pos0 d l Hi) as H0.
+  destruct (is_region_in _ _ _ _ Hreg) as [Hpin Hpq].
+  destruct (html_total_step_proof c d l Hc Hi) as (ty & tk & l' & Hn & Hi'). pose proof Hn as Hn0.
+  unfold next in Hn. cbn [lz rawtag intag lerr ltext lattr lhas] in Hn. rewrite Hit, Hraw in Hn. cbn [Z.eqb negb] in Hn.
+  unfold next_content in Hn. cbn [lz rawtag intag lerr ltext lattr lhas] in Hn.
+  rewrite (text_dispatch_c c d l 47 Hc Htb Hi Hcl G0 G1 ltac:(fold a; lia) Hnp) in Hn.
+  2:{ right; right; right. split; [reflexivity|]. fold a. split; [lia|exact G3]. }
+  change (if is_letter 47 then DStartTag else if 47 =? 33 then DMarkup else if 47 =? 63 then DBogusQ else DEndTag) with DEndTag in Hn. cbn [rbind] in Hn.
+  replace (mv (lz l) 2) with (zat l (a + 2)) in Hn by (unfold zat, mv, a; reflexivity).
+  rewrite (zat_pkr d l (a + 2) 0 Hi) in Hn by (unfold a in *; lia). rewrite Z.add_0_r in Hn. cbn [rbind] in Hn. rewrite G2 in Hn. cbn [negb] in Hn.
+  unfold shift_bogus in Hn.
+  destruct (loop (fuel_of (zat l (a + 2))) (with_tmpl_lx c bogus_body) (zat l (a + 2), false)) as [rh| |] eqn:El; cbn [rbind] in Hn; try discriminate.
+  assert (Hst : forall i, a + 2 <= i < p -> prefixb (tb c) (skipz i d) = false -> bogus_body (zat l i) = Ok (Cont (zat l (i + 1)))).
+  { intros i Hr _. apply (gt_step bogus_body c d l i (fun zz => eq_refl) Hi); [unfold a in *; lia|apply Hplain; exact Hr]. }
+  assert (Hnps : forall i, a + 2 <= i < p -> prefixb (tb c) (skipz i d) = false) by (intros i Hr; apply (Hplain i Hr)).
+  destruct (scan_reach_done c d l bogus_body p q _ (a + 2) false rh Hc Htb Hi Hreg ltac:(unfold a in *; lia) bogus_fwd Hst Hnps El) as [Hh Hqq].
+  cbn zeta in Hn.
+  destruct (lexeme_from (fst (fst rh)) 2) as [t| |]; cbn [rbind] in Hn; try discriminate.
+  destruct (shiftv (mv (fst (fst rh)) (snd (fst rh)))) as [s| |] eqn:Es; cbn [rbind] in Hn; try discriminate.
+  injection Hn as <- <- <-.
+  eexists _, _. split; [exact Hn0|]. cbn [lhas fst snd]. split; [exact Hh|].
+  apply (finish_token c d l _ _ _ q Hc Hi Hn0); [discriminate|discriminate|]. cbn [lz fst snd]. rewrite (shiftv_pos _ _ Es). cbn [mv lpos]. lia.
+Qed.
+
+(* plaintext content: bytes [cursor,p) at which no delimiter starts, then a region *)
+Lemma html_template_plaintext_proof : forall c d l p q, cfg_ok c -> tb c <> [] -> html_inv d l -> intag l = false ->
+  rawtag l = html_hash_Plaintext -> lpos (lz l) <= p ->
+  (forall i, lpos (lz l) <= i < p -> prefixb (tb c) (skipz i d) = false) -> is_region c d p q ->
+  exists v l', next c l = Ok (TextT, Some v, l') /\ lhas l' = true /\ so v = lpos (lz l) /\ q <= so v + sn v.
+Proof.
+  intros c d l p q Hc Htb Hi Hit Hraw Hap Hplain Hreg.
+  pose proof Hi as (Hl & Hlen & _). pose proof Hl as [Hw _]. pose proof (lwf_clean l Hl Hit) as Hcl. pose proof (inv_pos0 d l Hi) as H0.
+  destruct (is_region_in _ _ _ _ Hreg) as [Hpin Hpq].
+  assert (Hlt0 : 0 < len (tb c)) by (destruct (tb c) as [|x t]; [congruence|rewrite len_cons; pose proof (len_nonneg t); lia]).
+  destruct (html_total_step_proof c d l Hc Hi) as (ty & tk & l' & Hn & Hi'). pose proof Hn as Hn0.
+  unfold next in Hn. cbn [lz rawtag intag lerr ltext lattr lhas] in Hn. rewrite Hit, Hraw in Hn.
+  change (negb (html_hash_Plaintext =? 0)) with true in Hn. cbn [negb andb] in Hn.
+  unfold shift_rawtext in Hn. change (html_hash_Plaintext =? html_hash_Plaintext) with true in Hn.
+  rewrite <- (zat_here l) in Hn at 2.
+  destruct (loop (fuel_of (lz l)) (with_tmpl_lx c plaintext_body) (zat l (lpos (lz l)), false)) as [rh| |] eqn:El; cbn [rbind] in Hn; try discriminate.
+  assert (Hst : forall i, lpos (lz l) <= i < p -> prefixb (tb c) (skipz i d) = false -> plaintext_body (zat l i) = Ok (Cont (zat l (i + 1)))).
+  { intros i Hr _. unfold plaintext_body. rewrite (zat_pkr d l i 0 Hi) by lia. cbn [rbind].
+    unfold eof0. rewrite (at_end_zat d l i Hi ltac:(lia)), andb_false_r. reflexivity. }
+  destruct (scan_reach_gen (fun z : lx => z) c d l plaintext_body p q _ (lpos (lz l)) false rh Hc Htb Hi Hreg ltac:(lia) plaintext_step_samele Hst Hplain El) as [Hh Hqq].
+  assert (Hadv : adv (lz l) (fst rh)).
+  { destruct (safe_inv _ _ (plaintext_loop_spec c (lz l) false Hc Hw)) as (r2 & E2 & Ha). rewrite <- (zat_here l) in E2 at 2. rewrite El in E2. injection E2 as <-. exact Ha. }
+  rewrite shiftv_spec in Hn by eauto using adv_wf. cbn [rbind fst snd sn] in Hn.
+  destruct Hadv as (A1 & A2 & A3).
+  replace (0 <? lpos (fst rh) - lstart (fst rh)) with true in Hn by (symmetry; apply Z.ltb_lt; lia).
+  injection Hn as <- <- <-. eexists _, _. split; [exact Hn0|]. cbn [lhas so sn]. split; [exact Hh|]. split; lia.
+Qed.
+
+(* ---- svg / math / xml content ------------------------------------------------------------------------------------------- *)
+(* the template lemmas over a cursor that only satisfies binv (the tag name before it was lower-cased in the buffer) *)
+Lemma btmpl_here c d l p q : cfg_ok c -> binv d (lz l) -> lpos (lz l) <= p -> is_region c d p q ->
+  at_ (zat l p) (tb c) = Ok true /\ tmpl_skip c (zat l p) = Ok (zat l q) /\ p < q <= len d.
+Proof.
+  intros Hc Hi Ha Hreg. destruct (is_region_in _ _ _ _ Hreg) as [Hin Hlt].
+  pose proof Hi as (Hwl & Hlen & _). assert (Hp0 : 0 <= lpos (lz l)) by (destruct Hwl as (_ & ? & _); lia).
+  pose proof Hreg as (_ & Htb & Hpre & _).
+  assert (Hlt0 : 0 < len (tb c)) by (destruct (tb c) as [|x t]; [congruence|rewrite len_cons; pose proof (len_nonneg t); lia]).
+  destruct (bzat_wf d l p Hi ltac:(lia)) as [Hw Hrem].
+  assert (Hpre' : prefixb (tb c) (rem (zat l p)) = true) by (rewrite Hrem; exact Hpre).
+  destruct (tmpl_skip_here c (zat l p) Hc Hw Hpre') as [Hsk Hle].
+  assert (Eq : region_end_here c (zat l p) = q).
+  { eapply is_region_fun; [|exact Hreg]. apply bregion_here; [exact Hi|lia|exact Htb|exact Hpre]. }
+  rewrite Eq in *.
+  split; [rewrite at_rem by (apply Hc || exact Hw); rewrite Hpre'; reflexivity|].
+  split; [exact Hsk|unfold lx_len, zat in *; cbn [lbuf] in *; lia].
+Qed.
+
+Lemma btmpl_at_zat c d l a : cfg_ok c -> tb c <> [] -> binv d (lz l) -> lpos (lz l) <= a <= len d ->
+  tmpl_at c (zat l a) = Ok (prefixb (tb c) (skipz a d)).
+Proof.
+  intros Hc Htb Hi Ha. destruct (bzat_wf d l a Hi Ha) as [Hw Hrem]. unfold tmpl_at. rewrite (has_delims_true c Htb).
+  rewrite at_rem by (apply Hc || exact Hw). rewrite Hrem. reflexivity.
+Qed.
+
+(* p is a loop head of shiftXML reached from position a in the given state, over steps where no delimiter starts
+   and over whole regions *)
+Inductive xml_reach (c : cfg) (raw : Z) (d : list Z) : Z -> bool -> Z -> Z -> Z -> Prop :=
+| xr_refl a it q sk : xml_reach c raw d a it q sk a
+| xr_step a it q sk j it' q' sk' p : prefixb (tb c) (skipz a d) = false ->
+    xml_step raw it q sk (skipz a d) = Some (j, it', q', sk') -> xml_reach c raw d (a + j) it' q' sk' p -> xml_reach c raw d a it q sk p
+| xr_region a e it q sk p : is_region c d a e -> xml_reach c raw d e it q sk p -> xml_reach c raw d a it q sk p.
+
+Lemma xml_step_zat raw d l a it q sk j it' q' sk' : binv d (lz l) -> lpos (lz l) <= a <= len d ->
+  xml_step raw it q sk (skipz a d) = Some (j, it', q', sk') ->
+  xml_body raw (zat l a, it, q, sk) = Ok (Cont (zat l (a + j), it', q', sk')) /\ 1 <= j /\ a + j <= len d.
+Proof.
+  intros Hi Ha H. destruct (bzat_wf d l a Hi Ha) as [Hw Hrem].
+  pose proof Hi as (Hwl & _). assert (0 <= a) by (destruct Hwl as (_ & ? & _); lia).
+  destruct (xml_body_step raw (zat l a) it q sk _ j it' q' sk' (conj Hw Hrem) H) as [Hb Hj].
+  rewrite len_skipz in Hj by lia. split; [exact Hb|lia].
+Qed.
+
+Lemma xml_reach_le c raw d l a it q sk p : cfg_ok c -> binv d (lz l) -> lpos (lz l) <= a <= len d ->
+  xml_reach c raw d a it q sk p -> a <= p <= len d.
+Proof.
+  intros Hc Hi Ha H. induction H as [a it q sk|a it q sk j it' q' sk' p Hnp Hst _ IH|a e it q sk p Hreg _ IH]; [lia| |].
+  - destruct (xml_step_zat raw d l a it q sk j it' q' sk' Hi Ha Hst) as (_ & Hj1 & Hj2). specialize (IH ltac:(lia)). lia.
+  - destruct (btmpl_here c d l a e Hc Hi ltac:(lia) Hreg) as (_ & _ & He). specialize (IH ltac:(lia)). lia.
+Qed.
+
+Lemma xreach_done c raw d l p q fuel a it0 q0 sk0 h rh : cfg_ok c -> tb c <> [] -> binv d (lz l) -> is_region c d p q ->
+  lpos (lz l) <= a <= len d -> xml_reach c raw d a it0 q0 sk0 p ->
+  loop fuel (with_tmpl c xml_cur xml_setc (xml_body raw)) (zat l a, it0, q0, sk0, h) = Ok rh ->
+  snd rh = true /\ q <= lpos (sum_cur (fst rh)).
+Proof.
+  intros Hc Htb Hi Hreg Ha Hpath H.
+  destruct (btmpl_here c d l p q Hc Hi ltac:(pose proof (xml_reach_le _ _ _ _ _ _ _ _ _ Hc Hi Ha Hpath); lia) Hreg) as (Hatp & Hskp & Hq).
+  set (I := fun sh : lx * bool * Z * Z * bool =>
+              (snd sh = true /\ samele (lz l) (xml_cur (fst sh)) /\ q <= lpos (xml_cur (fst sh))) \/
+              (exists i it1 q1 sk1, fst sh = (zat l i, it1, q1, sk1) /\ lpos (lz l) <= i <= len d /\ xml_reach c raw d i it1 q1 sk1 p)).
+  refine (with_tmpl_inv2 c xml_cur xml_setc I (fun r : (lx + lx) * bool => snd r = true /\ q <= lpos (sum_cur (fst r)))
+            (xml_body raw) _ _ fuel _ rh _ H).
+  - intros s h1 z' HI Hat Hk. unfold I in *. cbn [fst snd] in *.
+    destruct HI as [(_ & Hs & Hqs)|(i & it1 & q1 & sk1 & -> & Hi0 & Hp)].
+    + left. split; [reflexivity|]. pose proof (tmpl_skip_run _ _ _ Hk) as Hkr. unfold xml_setc, xml_cur in *. cbn [fst snd] in *.
+      split; [eapply samele_trans; eauto|destruct Hkr; lia].
+    + unfold xml_cur, xml_setc in *. cbn [fst snd] in *. inversion Hp; subst.
+      * left. split; [reflexivity|]. rewrite Hskp in Hk. injection Hk as <-.
+        split; [split; [split; reflexivity|unfold zat; cbn [lpos]; lia]|unfold zat; cbn [lpos]; lia].
+      * exfalso. rewrite (btmpl_at_zat c d l i Hc Htb Hi ltac:(lia)) in Hat. congruence.
+      * destruct (btmpl_here c d l i e Hc Hi ltac:(lia) H0) as (_ & Hske & He). rewrite Hske in Hk. injection Hk as <-.
+        right. exists e, it1, q1, sk1. split; [reflexivity|]. split; [lia|assumption].
+  - intros s h1 x HI Hat Hx. unfold I in *. cbn [fst snd] in *.
+    destruct HI as [(Hh & Hs & Hqs)|(i & it1 & q1 & sk1 & -> & Hi0 & Hp)].
+    + pose proof (xml_fwd raw s x Hx) as Hf. destruct x as [s'|r]; cbn [fst snd].
+      * left. split; [exact Hh|]. split; [eapply samele_trans; eauto|destruct Hf; lia].
+      * split; [exact Hh|]. destruct Hf as [_ Hf]. lia.
+    + unfold xml_cur in *. cbn [fst snd] in *. inversion Hp; subst.
+      * exfalso. unfold tmpl_at in Hat. rewrite (has_delims_true c Htb), Hatp in Hat. discriminate.
+      * destruct (xml_step_zat raw d l i it1 q1 sk1 j it' q' sk' Hi Hi0 H1) as (Hb & Hj1 & Hj2). rewrite Hb in Hx. injection Hx as <-.
+        right. exists (i + j), it', q', sk'. split; [reflexivity|]. split; [lia|assumption].
+      * exfalso. destruct (btmpl_here c d l i e Hc Hi ltac:(lia) H0) as (Hate & _). unfold tmpl_at in Hat. rewrite (has_delims_true c Htb), Hate in Hat. discriminate.
+  - unfold I. cbn [fst snd]. right. exists a, it0, q0, sk0. split; [reflexivity|]. split; [exact Ha|exact Hpath].
+Qed.
+
+(* the name of a start tag, as shiftStartTag reads it with delimiters configured *)
+Definition stag_plain (c : cfg) (d : list Z) (i : Z) : Prop :=
+  0 <= i < len d /\ prefixb (tb c) (skipz i d) = false /\ is_ws (getz d i) = false /\ getz d i <> 62 /\
+  (getz d i = 47 -> getz d (i + 1) <> 62).
+Definition stag_stop (c : cfg) (d : list Z) (n : Z) : Prop :=
+  n = len d \/
+  (0 <= n < len d /\ (prefixb (tb c) (skipz n d) = true \/ is_ws (getz d n) = true \/ getz d n = 62 \/ (getz d n = 47 /\ getz d (n + 1) = 62))).
+
+Lemma starttag_loop_c c d l a n : cfg_ok c -> tb c <> [] -> html_inv d l -> lpos (lz l) <= a <= n -> n <= len d ->
+  (forall i, a <= i < n -> stag_plain c d i) -> stag_stop c d n ->
+  loop (fuel_of (zat l a)) (starttag_body c) (zat l a) = Ok (zat l n).
+Proof.
+  intros Hc Htb Hi Ha Hn Hplain Hstop. pose proof Hi as (_ & Hlen & _). pose proof (inv_pos0 d l Hi) as H0.
+  assert (Hmv : forall i, mv (zat l a) i = zat l (a + i)) by (intros i; reflexivity).
+  apply (loop_scan _ (zat l a) (n - a)); [lia| | |unfold fuel_of, zat, lx_len in *; cbn [lbuf lpos]; lia].
+  - intros i Hir. rewrite !Hmv. destruct (Hplain (a + i) ltac:(lia)) as ((Hi0 & Hi1) & Hnp & Hw & H62 & H47).
+    unfold starttag_body. rewrite (zat_pkr d l (a + i) 0 Hi) by lia. rewrite Z.add_0_r. cbn [rbind].
+    unfold is_ws in Hw. apply orb_false_iff in Hw. destruct Hw as [Hw H12]. apply orb_false_iff in Hw. destruct Hw as [Hw H13].
+    apply orb_false_iff in Hw. destruct Hw as [Hw H10]. apply orb_false_iff in Hw. destruct Hw as [H32 H9].
+    rewrite H32, H9, H10, H13, H12.
+    replace (getz d (a + i) =? 62) with false by (symmetry; apply Z.eqb_neq; exact H62). cbn [orb].
+    unfold eof0. rewrite (at_end_zat d l (a + i) Hi Hi1), andb_false_r.
+    rewrite (tmpl_at_zat c d l (a + i) Hc Htb Hi ltac:(lia)), Hnp.
+    destruct (getz d (a + i) =? 47) eqn:E47.
+    + rewrite (zat_pkr d l (a + i) 1 Hi) by lia. cbn [rbind].
+      replace (getz d (a + i + 1) =? 62) with false by (symmetry; apply Z.eqb_neq; apply H47; apply Z.eqb_eq; exact E47).
+      cbn [rbind]. replace (a + (i + 1)) with (a + i + 1) by lia. reflexivity.
+    + cbn [rbind]. replace (a + (i + 1)) with (a + i + 1) by lia. reflexivity.
+  - rewrite Hmv. replace (a + (n - a)) with n by lia. unfold starttag_body.
+    rewrite (zat_pkr d l n 0 Hi) by lia. rewrite Z.add_0_r. cbn [rbind].
+    destruct Hstop as [->|((Hn0 & Hn1) & Hs)].
+    + assert (G : getz d (len d) = 0) by (unfold getz; rewrite (proj2 (peekz_none_iff d (len d))) by lia; reflexivity).
+      rewrite G. cbn [Z.eqb orb rbind]. unfold eof0. cbn [Z.eqb andb].
+      replace (at_end (zat l (len d))) with true by (symmetry; unfold at_end, zat, lx_len in *; cbn [lbuf lpos]; apply Z.leb_le; lia).
+      reflexivity.
+    + rewrite (tmpl_at_zat c d l n Hc Htb Hi ltac:(lia)).
+      destruct ((getz d n =? 32) || (getz d n =? 62)) eqn:E1; [reflexivity|]. cbn [rbind].
+      destruct (getz d n =? 47) eqn:E47.
+      * rewrite (zat_pkr d l n 1 Hi) by lia. cbn [rbind].
+        destruct (getz d (n + 1) =? 62) eqn:E2; [reflexivity|].
+        destruct ((getz d n =? 9) || (getz d n =? 10) || (getz d n =? 13) || (getz d n =? 12) || eof0 (zat l n) (getz d n)) eqn:E3; [reflexivity|].
+        cbn [rbind]. destruct Hs as [->|[Hw|[E|[_ E]]]]; [reflexivity| | |].
+        -- exfalso. apply Z.eqb_eq in E47. rewrite E47 in Hw. discriminate.
+        -- exfalso. apply Z.eqb_eq in E47. lia.
+        -- exfalso. apply Z.eqb_neq in E2. lia.
+      * cbn [rbind].
+        destruct ((getz d n =? 9) || (getz d n =? 10) || (getz d n =? 13) || (getz d n =? 12) || eof0 (zat l n) (getz d n)) eqn:E3; [reflexivity|].
+        cbn [rbind]. destruct Hs as [->|[Hw|[E|[E _]]]]; [reflexivity| | |].
+        -- exfalso. unfold is_ws in Hw. apply orb_false_iff in E1. destruct E1 as [E32 _].
+           apply orb_false_iff in E3. destruct E3 as [E3 _]. apply orb_false_iff in E3. destruct E3 as [E3 E12].
+           apply orb_false_iff in E3. destruct E3 as [E3 E13]. apply orb_false_iff in E3. destruct E3 as [E9 E10].
+           rewrite E32, E9, E10, E13, E12 in Hw. discriminate.
+        -- exfalso. apply orb_false_iff in E1. destruct E1 as [_ E62]. apply Z.eqb_neq in E62. lia.
+        -- exfalso. apply Z.eqb_neq in E47. lia.
+Qed.
+
+(* what the two loops of shiftXML return *)
+Lemma xml_loop_post c raw fuel z0 it q sk h rh :
+  loop fuel (with_tmpl c xml_cur xml_setc (xml_body raw)) (z0, it, q, sk, h) = Ok rh ->
+  samele z0 (sum_cur (fst rh)) /\ (forall z', fst rh = inr z' -> pk z' 0 = Some 0).
+Proof.
+  intros H.
+  refine (with_tmpl_inv2 c xml_cur xml_setc (fun sh => samele z0 (xml_cur (fst sh)))
+            (fun r : (lx + lx) * bool => samele z0 (sum_cur (fst r)) /\ (forall z', fst r = inr z' -> pk z' 0 = Some 0))
+            (xml_body raw) _ _ fuel _ rh _ H).
+  - intros s h1 z' HI _ Hk. cbn [fst] in *. unfold xml_setc, xml_cur in *. cbn [fst]. eapply samele_trans; [exact HI|]. exact (tmpl_skip_run _ _ _ Hk).
+  - intros s h1 x HI _ Hx. cbn [fst] in *. pose proof (xml_fwd raw s x Hx) as Hf. destruct x as [s'|r]; cbn [fst].
+    + eapply samele_trans; eauto.
+    + split; [eapply samele_trans; eauto|]. intros z' ->.
+      destruct s as [[[z it1] q1] sk1]. unfold xml_body in Hx. unfold pkr at 1 in Hx.
+      destruct (pk z 0) as [c0|] eqn:Ep; cbn [opt_res rbind] in Hx; try discriminate.
+      destruct (negb (sk1 =? 0) && negb (c0 =? 0)).
+      { match type of Hx with rbind ?e _ = _ => destruct e as [a| |] end; cbn [rbind] in Hx; try discriminate.
+        destruct a; [discriminate|].
+        match type of Hx with rbind ?e _ = _ => destruct e as [b| |] end; cbn [rbind] in Hx; try discriminate.
+        destruct b; discriminate. }
+      destruct (negb (q1 =? 0) && negb (c0 =? 0)); [discriminate|].
+      destruct (it1 && negb (c0 =? 0)); [discriminate|].
+      destruct (c0 =? 60).
+      { destruct (pkr z 1) as [c1| |]; cbn [rbind] in Hx; try discriminate.
+        destruct (negb (c1 =? 47)).
+        - destruct (at_ z [60; 33; 45; 45]) as [a1| |]; cbn [rbind] in Hx; try discriminate.
+          destruct a1; [discriminate|].
+          destruct (at_ z [60; 33; 91; 67; 68; 65; 84; 65; 91]) as [a2| |]; cbn [rbind] in Hx; try discriminate.
+          destruct a2; [discriminate|]. destruct (c1 =? 63); discriminate.
+        - destruct (letters_loop (mv z 2)) as [z2| |]; cbn [rbind] in Hx; try discriminate.
+          destruct (hash_lexeme_from z2 (mark z + 2)) as [hh| |]; cbn [rbind] in Hx; try discriminate.
+          destruct (hh =? raw); discriminate. }
+      destruct (c0 =? 0) eqn:E0; [|discriminate]. injection Hx as <-. apply Z.eqb_eq in E0. subst c0. exact Ep.
+  - cbn [fst]. unfold xml_cur. cbn [fst]. apply samele_refl.
+Qed.
+
+Lemma xml_close_post c fuel z0 h rh : loop fuel (with_tmpl_lx c xml_close_body) (z0, h) = Ok rh ->
+  samele z0 (sum_cur (fst rh)) /\ (forall z', fst rh = inr z' -> pk z' 0 = Some 0) /\ (h = true -> snd rh = true).
+Proof.
+  intros H. unfold with_tmpl_lx in H.
+  refine (with_tmpl_inv2 c (fun z : lx => z) (fun _ z' => z') (fun sh => samele z0 (fst sh) /\ (h = true -> snd sh = true))
+            (fun r : (lx + lx) * bool => samele z0 (sum_cur (fst r)) /\ (forall z', fst r = inr z' -> pk z' 0 = Some 0) /\ (h = true -> snd r = true))
+            xml_close_body _ _ fuel _ rh _ H).
+  - intros s h1 z' [HI _] _ Hk. cbn [fst snd] in *. split; [|reflexivity]. eapply samele_trans; [exact HI|]. exact (tmpl_skip_run _ _ _ Hk).
+  - intros s h1 x [HI Hh] _ Hx. cbn [fst snd] in *. pose proof (xml_close_fwd s x Hx) as Hf. destruct x as [s'|r]; cbn [fst snd].
+    + split; [eapply samele_trans; eauto|exact Hh].
+    + split; [eapply samele_trans; eauto|]. split; [|exact Hh]. intros z' ->.
+      unfold xml_close_body in Hx. unfold pkr at 1 in Hx. destruct (pk s 0) as [c0|] eqn:Ep; cbn [opt_res rbind] in Hx; try discriminate.
+      destruct (c0 =? 62); [discriminate|]. destruct (c0 =? 0) eqn:E0; [|discriminate]. injection Hx as <-. apply Z.eqb_eq in E0. subst c0. exact Ep.
+  - cbn [fst snd]. split; [apply samele_refl|tauto].
+Qed.
+
+(* with no NUL byte in the rest of the input, a cursor that sees 0 is at the end *)
+Lemma nul_is_end d l z' : binv d (lz l) -> samele (lz l) z' -> pk z' 0 = Some 0 ->
+  (forall i, lpos (lz l) <= i < len d -> getz d i <> 0) -> at_end z' = true.
+Proof.
+  intros Hi [Hs Hle] Hp Hnul. pose proof Hi as (Hwl & Hlen & _).
+  assert (Hp0 : 0 <= lpos (lz l)) by (destruct Hwl as (_ & ? & _); lia).
+  pose proof (same_zat l z' Hs) as Ez. remember (lpos z') as a eqn:Ea. clear Ea. subst z'.
+  unfold at_end. apply Z.leb_le. unfold zat at 1 2. cbn [lbuf lpos]. unfold lx_len in Hlen |- *. cbn [lbuf].
+  destruct (Z.lt_ge_cases a (len d)) as [Hlt|Hge]; [exfalso|unfold lx_len in *; lia].
+  destruct (bzat_wf d l a Hi ltac:(lia)) as [Hw Hrem].
+  destruct (peekz_in d a ltac:(lia)) as (x & Hx & _).
+  assert (Hpx : peekz (skipz a d) 0 = Some x) by (rewrite peekz_skipz by lia; rewrite Z.add_0_r; exact Hx).
+  destruct (reads_peek (zat l a) _ 0 x (conj Hw Hrem) Hpx) as [Hpk _].
+  rewrite Hpk in Hp. injection Hp as ->. apply (Hnul a ltac:(lia)). unfold getz. rewrite Hx. reflexivity.
+Qed.
+
+(* svg / math / xml: '<' + the element's name at the cursor, then content as shiftXML reads it up to a region *)
+Lemma html_template_xml_proof : forall c d l n h p q, cfg_ok c -> tb c <> [] -> html_inv d l -> intag l = false -> rawtag l = 0 -> lerr l = false ->
+  let a := lpos (lz l) in
+  prefixb (tb c) (skipz a d) = false -> getz d a = 60 -> is_letter (getz d (a + 1)) = true -> a + 1 <= n <= len d ->
+  (forall i, a + 1 <= i < n -> stag_plain c d i) -> stag_stop c d n ->
+  to_hash (map lower (slice d (a + 1) n)) = Ok h -> is_xml_hash h = true ->
+  (forall i, n <= i < len d -> getz d i <> 0) ->
+  xml_reach c h d n true 0 0 p -> is_region c d p q ->
+  n <= p /\ exists ty v l', next c l = Ok (ty, Some v, l') /\ lhas l' = true /\ so v = a /\ q <= so v + sn v.
+Proof.
+  intros c d l n h p q Hc Htb Hi Hit Hraw Herr a Hnp G0 G1 Han Hplain Hstop Hh Hx Hnul Hreach Hreg.
+  pose proof Hi as (Hl & Hlen & Hsuf & _). pose proof (lwf_clean l Hl Hit) as Hcl. pose proof (inv_pos0 d l Hi) as H0.
+  assert (R1 : 0 <= a + 1 < len d) by (apply (getz_nz_range d (a + 1) (getz d (a + 1)) eq_refl); intros E; rewrite E in G1; discriminate).
+  destruct (html_total_step_proof c d l Hc Hi) as (ty & tk & l' & Hn & Hi'). pose proof Hn as Hn0.
+  unfold next in Hn. cbn [lz rawtag intag lerr ltext lattr lhas] in Hn. rewrite Hit, Hraw in Hn. cbn [Z.eqb negb] in Hn.
+  unfold next_content in Hn. cbn [lz rawtag intag lerr ltext lattr lhas] in Hn.
+  rewrite (text_dispatch_c c d l (getz d (a + 1)) Hc Htb Hi Hcl G0 eq_refl ltac:(fold a; lia) Hnp ltac:(tauto)) in Hn.
+  rewrite G1 in Hn. cbn [rbind] in Hn.
+  replace (mv (lz l) 1) with (zat l (a + 1)) in Hn by (unfold zat, mv, a; reflexivity).
+  unfold shift_starttag in Hn. cbn [lz rawtag intag lerr ltext lattr lhas] in Hn.
+  rewrite (starttag_loop_c c d l (a + 1) n Hc Htb Hi ltac:(unfold a in *; lia) ltac:(lia) Hplain Hstop) in Hn. cbn [rbind] in Hn.
+  destruct (zat_wf d l n Hi ltac:(unfold a in *; lia)) as [Hwn Hremn].
+  rewrite lexeme_from_spec in Hn by (exact Hwn || (unfold zat; cbn [lpos lstart]; rewrite Hcl; fold a; lia)). cbn [rbind] in Hn.
+  set (t := mkSl (a + 1) (n - a - 1)).
+  replace (mkSl (lstart (zat l n) + 1) (lpos (zat l n) - lstart (zat l n) - 1)) with t in Hn
+    by (unfold t, zat; cbn [lstart lpos]; rewrite Hcl; fold a; f_equal; lia).
+  assert (Hbl : len (lbuf (lz l)) = len d + 1) by (unfold lx_len in Hlen; lia).
+  assert (Hbytes : view_bytes (lbuf (lx_lower (zat l n) t)) t = map lower (slice d (a + 1) n)).
+  { unfold lx_lower. cbn [lbuf]. unfold zat at 1. cbn [lbuf].
+    rewrite view_bytes_lower_view by (unfold t; cbn [so sn]; lia). f_equal.
+    unfold view_bytes, t. cbn [so sn]. replace (a + 1 + (n - a - 1)) with n by lia.
+    apply slice_ext; [lia|lia|lia|]. intros i Hir. rewrite Hsuf by (fold a; lia). apply peekz_app_l. lia. }
+  rewrite Hbytes, Hh in Hn. cbn [rbind] in Hn.
+  assert (Hrw : is_raw_hash h = true).
+  { unfold is_raw_hash, is_xml_hash in *. apply orb_true_iff in Hx. destruct Hx as [Hx|Hx]; [apply orb_true_iff in Hx; destruct Hx as [Hx|Hx]|];
+      rewrite Hx; rewrite ?orb_true_r; reflexivity. }
+  rewrite Hrw, Hx, Herr in Hn.
+  set (z2 := lx_lower (zat l n) t) in *.
+  destruct (shift_xml c h z2 false false) as [[[[dv z3] e] hx]| |] eqn:Ex; cbn [rbind] in Hn; try discriminate.
+  (* the base lexer after the name *)
+  set (l2 := mkL z2 0 false false None None false).
+  assert (Hrd : reads z2 (skipz n d)).
+  { apply reads_lower; [split; assumption|unfold t; cbn [so]; lia|unfold t; cbn [sn]; lia|unfold t, zat; cbn [so sn lpos]; lia]. }
+  assert (Hb2 : binv d (lz l2)).
+  { cbn [l2 lz]. destruct Hrd as [Hw2 Hr2]. split; [exact Hw2|]. split; [|exact Hr2].
+    unfold z2. rewrite lx_lower_len; [unfold lx_len, zat in *; cbn [lbuf]; exact Hlen|exact Hwn|unfold t; cbn [so]; lia|unfold t; cbn [sn]; lia|].
+    unfold t, lx_len, zat; cbn [so sn lbuf]. lia. }
+  assert (Hz2 : z2 = zat l2 n) by reflexivity.
+  assert (Hl2 : lpos (lz l2) = n) by reflexivity.
+  assert (Hnul2 : forall i, lpos (lz l2) <= i < len d -> getz d i <> 0) by (rewrite Hl2; exact Hnul).
+  assert (Hfin : e = false /\ hx = true /\ q <= lpos z3).
+  { unfold shift_xml in Ex.
+    destruct (loop (fuel_of z2) (with_tmpl c xml_cur xml_setc (xml_body h)) (z2, true, 0, 0, false)) as [rh| |] eqn:El; cbn [rbind] in Ex; try discriminate.
+    rewrite Hz2 in El at 2.
+    destruct (xreach_done c h d l2 p q _ n true 0 0 false rh Hc Htb Hb2 Hreg ltac:(rewrite Hl2; lia) Hreach El) as [Hh1 Hq1].
+    destruct (xml_loop_post c h _ _ _ _ _ _ rh El) as [Hs1 Hn1]. rewrite <- Hz2 in Hs1.
+    destruct rh as [[z'|z'] h1]; cbn [fst snd sum_cur] in *.
+    - destruct (loop (fuel_of z') (with_tmpl_lx c xml_close_body) (z', h1)) as [rh2| |] eqn:El2; cbn [rbind] in Ex; try discriminate.
+      destruct (xml_close_post c _ _ _ rh2 El2) as (Hs2 & Hn2 & Hh2).
+      assert (Hs02 : samele (lz l2) (sum_cur (fst rh2))) by (eapply samele_trans; [exact Hs1|exact Hs2]).
+      destruct rh2 as [[z''|z''] h2]; cbn [fst snd sum_cur] in *;
+        (destruct (shiftv z'') as [s| |] eqn:Es; cbn [rbind] in Ex; try discriminate; injection Ex as <- <- <- <-;
+         rewrite (shiftv_pos _ _ Es)).
+      + split; [reflexivity|]. split; [apply Hh2; exact Hh1|]. destruct Hs2 as [_ Hs2]. lia.
+      + rewrite (nul_is_end d l2 z'' Hb2 Hs02 (Hn2 z'' eq_refl) Hnul2). split; [reflexivity|]. split; [apply Hh2; exact Hh1|]. destruct Hs2 as [_ Hs2]. lia.
+    - destruct (shiftv z') as [s| |] eqn:Es; cbn [rbind] in Ex; try discriminate. injection Ex as <- <- <- <-.
+      rewrite (shiftv_pos _ _ Es). rewrite (nul_is_end d l2 z' Hb2 Hs1 (Hn1 z' eq_refl) Hnul2). split; [reflexivity|]. split; [exact Hh1|exact Hq1]. }
+  destruct Hfin as (-> & -> & Hq3). injection Hn as <- <- <-.
+  split; [exact (proj1 (xml_reach_le c h d l2 n true 0 0 p Hc Hb2 ltac:(rewrite Hl2; lia) Hreach))|].
+  eexists _, _, _. split; [exact Hn0|]. cbn [lhas]. split; [reflexivity|].
+  apply (finish_token c d l _ _ _ q Hc Hi Hn0); [destruct (h =? html_hash_Svg); [discriminate|destruct (h =? html_hash_Math); discriminate]|
+                                                  destruct (h =? html_hash_Svg); [discriminate|destruct (h =? html_hash_Math); discriminate]|].
+  cbn [lz]. exact Hq3.
+Qed.
+
 (* ---- both halves in one statement -------------------------------------------------------------------------------------- *)
 (* The positions p at which the call Next(l) looks for an opening delimiter, by context (each constructor is the
    shape of the input between the cursor and p).  Not looked at: the letters jumped over after '<' or "</" in raw
    text, script "<!--" sections and svg / math content; the bytes of "<!--", "<![CDATA[", "<?" and of the terminators
    "-->", "]]>", "?>" that are moved over at once; the blank after "<!doctype"; whitespace, '=' and the closers '>'
    "/>" inside a tag; the first two bytes of "</", "<!", "<?" and the first letter of a tag name.  (Inside svg / math
-   / xml and plaintext the lexer looks at every other position; these two contexts are covered by the second half
-   and by the witnesses, not by [looked].) *)
+   / xml content the lexer looks at every other position; that context is covered by the second half and by the
+   witnesses, not by [looked].) *)
 Inductive looked (c : cfg) (d : list Z) (l : lexer) (p : Z) : Prop :=
 | lk_text : intag l = false -> rawtag l = 0 -> p = lpos (lz l) -> looked c d l p
 | lk_attr_name a : tb_plain c -> intag l = true -> lstart (lz l) = lpos (lz l) -> lpos (lz l) <= a <= p ->
@@ -839,9 +1220,20 @@ Inductive looked (c : cfg) (d : list Z) (l : lexer) (p : Z) : Prop :=
 | lk_bogus_q : intag l = false -> rawtag l = 0 -> prefixb (tb c) (skipz (lpos (lz l)) d) = false ->
     getz d (lpos (lz l)) = 60 -> getz d (lpos (lz l) + 1) = 63 -> lpos (lz l) + 1 <= p ->
     (forall i, lpos (lz l) + 1 <= i < p -> gt_plain c d i) -> looked c d l p
+| lk_bogus_slash : intag l = false -> rawtag l = 0 -> prefixb (tb c) (skipz (lpos (lz l)) d) = false ->
+    getz d (lpos (lz l)) = 60 -> getz d (lpos (lz l) + 1) = 47 -> lpos (lz l) + 2 < len d ->
+    is_letter (getz d (lpos (lz l) + 2)) = false -> getz d (lpos (lz l) + 2) <> 62 -> lpos (lz l) + 2 <= p ->
+    (forall i, lpos (lz l) + 2 <= i < p -> gt_plain c d i) -> looked c d l p
+| lk_plaintext : intag l = false -> rawtag l = html_hash_Plaintext -> lpos (lz l) <= p ->
+    (forall i, lpos (lz l) <= i < p -> prefixb (tb c) (skipz i d) = false) -> looked c d l p
 | lk_endtag : intag l = false -> rawtag l = 0 -> prefixb (tb c) (skipz (lpos (lz l)) d) = false ->
     getz d (lpos (lz l)) = 60 -> getz d (lpos (lz l) + 1) = 47 -> is_letter (getz d (lpos (lz l) + 2)) = true -> lpos (lz l) + 2 <= p ->
-    (forall i, lpos (lz l) + 2 <= i < p -> gt_plain c d i) -> looked c d l p.
+    (forall i, lpos (lz l) + 2 <= i < p -> gt_plain c d i) -> looked c d l p
+| lk_xml n h : intag l = false -> rawtag l = 0 -> lerr l = false -> prefixb (tb c) (skipz (lpos (lz l)) d) = false ->
+    getz d (lpos (lz l)) = 60 -> is_letter (getz d (lpos (lz l) + 1)) = true -> lpos (lz l) + 1 <= n <= len d ->
+    (forall i, lpos (lz l) + 1 <= i < n -> stag_plain c d i) -> stag_stop c d n ->
+    to_hash (map lower (slice d (lpos (lz l) + 1) n)) = Ok h -> is_xml_hash h = true ->
+    (forall i, n <= i < len d -> getz d i <> 0) -> xml_reach c h d n true 0 0 p -> looked c d l p.
 
 Lemma html_template_exact_proof : forall c d l, cfg_ok c -> tb c <> [] -> html_inv d l ->
   (forall p q, looked c d l p -> is_region c d p q ->
@@ -867,5 +1259,31 @@ Proof.
   - apply (Hpack q DoctypeT); [|destruct (getz d (lpos (lz l) + 9) =? 32); lia]. eapply html_template_doctype_proof; eauto.
   - apply (Hpack q CommentT); [|lia]. eapply html_template_bogus_bang_proof; eauto.
   - apply (Hpack q CommentT); [|lia]. eapply html_template_bogus_proof; eauto.
+  - apply (Hpack q CommentT); [|lia]. eapply html_template_bogus_slash_proof; eauto.
+  - apply (Hpack q TextT); [|lia]. eapply html_template_plaintext_proof; eauto.
   - apply (Hpack q EndTagT); [|lia]. eapply html_template_endtag_proof; eauto.
+  - destruct (html_template_xml_proof c d l n h p q Hc Htb Hi H H0 H1 H2 H3 H4 H5 H6 H7 H8 H9 H10 H11 Hreg) as (Hle & ty & v & l' & Hn & Hh & Hs & Hq).
+    exists ty, v, l'. split; [exact Hn|]. split; [exact Hh|]. split; [lia|exact Hq].
+Qed.
+
+(* ---- the former witnesses as instances: svg content --------------------------------------------------------------------- *)
+Lemma getz_nz_all (d : list Z) : forallb (fun x => negb (x =? 0)) d = true -> forall i, 0 <= i < len d -> getz d i <> 0.
+Proof.
+  intros H i Hi. destruct (peekz_in d i Hi) as (x & Hx & Hin). unfold getz. rewrite Hx.
+  rewrite forallb_forall in H. specialize (H x Hin). apply negb_true_iff, Z.eqb_neq in H. exact H.
+Qed.
+
+(* <svg>{{"</svg>"}}</svg> : position 5 is looked at (the '>' of the start tag is one step of shiftXML) *)
+Example html_template_xml_looked :
+  let d := [60;115;118;103;62;123;123;34;60;47;115;118;103;62;34;125;125;60;47;115;118;103;62] in
+  looked go_tmpl d (new_lexer d) 5 /\ is_region go_tmpl d 5 17.
+Proof.
+  intros d. split; [|split; [lia|split; [discriminate|split; vm_compute; reflexivity]]].
+  apply (lk_xml go_tmpl d (new_lexer d) 5 4 html_hash_Svg); try reflexivity.
+  - cbn. lia.
+  - intros i Hi. cbn in Hi. assert (Hc : i = 1 \/ i = 2 \/ i = 3) by lia.
+    destruct Hc as [->|[->| ->]]; (split; [cbn; lia|]; split; [reflexivity|]; split; [reflexivity|]; split; vm_compute; intros E; discriminate).
+  - right. split; [cbn; lia|]. right. right. left. reflexivity.
+  - intros i Hi. apply getz_nz_all; [reflexivity|lia].
+  - eapply (xr_step go_tmpl html_hash_Svg d 4 true 0 0 1 false 0 0 5); [reflexivity|reflexivity|apply xr_refl].
 Qed.
